@@ -97,6 +97,16 @@ pub fn decode(bytes: &[u8]) -> Burst {
                 // changes are generated against the model of an open document; for a closed one the
                 // notification is sent all the same (the server must ignore it)
                 let mut text = model[u].clone().unwrap_or_else(|| "x".to_string());
+                // a quarter of the changes keep the byte length but change the line structure: a
+                // blank becomes a line feed or the other way round (diagnostics behind it move)
+                let toggles: Vec<usize> = text.char_indices().filter(|(_, c)| *c == ' ' || *c == '\n').map(|(i, _)| i).filter(|i| lsp::expressible(&text, *i) && lsp::expressible(&text, *i + 1)).collect();
+                if !toggles.is_empty() && s.chance(1, 4) {
+                    let at = toggles[s.below(toggles.len())];
+                    let to = if text.as_bytes()[at] == b' ' { "\n" } else { " " };
+                    let ch = Change { range: Some((lsp::pos_of(&text, at), lsp::pos_of(&text, at + 1))), text: to.to_string() };
+                    lsp::apply(&mut text, &ch);
+                    changes.push(ch);
+                }
                 for _ in 0..k {
                     let mut labels = Vec::new();
                     let a = gen_pos(&mut s, &text, &mut labels);
